@@ -322,8 +322,14 @@ _ITER_CONSUMERS = {"builtins.any", "builtins.all", "builtins.sum", "builtins.tup
 
 
 def _iterated_copy(x):
-    while is_term(x) and x[0] == "call" and x[1] in (("glob", "builtins.list"), ("glob", "builtins.tuple")) and len(x[2]) == 1 and not x[3]:
-        x = x[2][0]
+    while is_term(x) and x[0] == "call":
+        if x[1] in (("glob", "builtins.list"), ("glob", "builtins.tuple")) and len(x[2]) == 1 and not x[3]:
+            x = x[2][0]
+        elif x[1][0] == "attr" and x[1][2] in ("tolist", "to_list") and not x[2] and not x[3] \
+                and is_term(x[1][1]) and x[1][1][0] == "attr" and x[1][1][2] == "index":
+            x = x[1][1]  # iterating index.tolist() is iterating the index
+        else:
+            break
     return x
 
 
